@@ -357,8 +357,9 @@ def custom_classes_case(rec, pvl, dialect, cfg, module, text, wit):
             t = re.sub(r'"[^"]*"|\'[^\']*\'',
                        lambda m: re.sub(r"\s+", " ", m.group(0)), t)
             return tokens_outside_quotes(t)
-        if canon(got) == canon(text):
-            return
+        if canon(got) == canon(text) and \
+                re.sub(r"\s+", " ", got) != re.sub(r"\s+", " ", text):
+            return      # (another order, not just another layout)
     if got != text:
         rec.violation(CHECK, dialect, "custom-container-classes-change-the-text", {},
                       dict(wit, with_custom_classes=repr(got)[:800]),
